@@ -156,28 +156,40 @@ where
                 //   v = w / u  =>  [wmin / umax .. wmax / umin]
                 //
                 // The constraint is not dropped until all variables converge into numbers.
+                // Interval product: with negative bounds the extremes can be any of the four
+                // corner products.
+                let products = [
+                    umin.saturating_mul(vmin),
+                    umin.saturating_mul(vmax),
+                    umax.saturating_mul(vmin),
+                    umax.saturating_mul(vmax),
+                ];
+                let pmin = *products.iter().min().unwrap();
+                let pmax = *products.iter().max().unwrap();
+                // The quotient bounds below assume non-negative operands; otherwise the
+                // operand keeps its current bounds.
+                let nonneg = umin >= 0 && vmin >= 0 && wmin >= 0;
+                let (ulo, uhi) = if nonneg {
+                    (
+                        wmin.checked_div(vmax).unwrap_or(umin),
+                        wmax.checked_div(vmin).unwrap_or(umax),
+                    )
+                } else {
+                    (umin, umax)
+                };
+                let (vlo, vhi) = if nonneg {
+                    (
+                        wmin.checked_div(umax).unwrap_or(vmin),
+                        wmax.checked_div(umin).unwrap_or(vmax),
+                    )
+                } else {
+                    (vmin, vmax)
+                };
                 Ok(state
                     .with_constraint(self.clone())
-                    .process_domain(
-                        &wwalk,
-                        Rc::new(FiniteDomain::from(
-                            umin.saturating_mul(vmin)..=umax.saturating_mul(vmax),
-                        )),
-                    )?
-                    .process_domain(
-                        &uwalk,
-                        Rc::new(FiniteDomain::from(
-                            wmin.checked_div(vmax).unwrap_or(umin)
-                                ..=wmax.checked_div(vmin).unwrap_or(umax),
-                        )),
-                    )?
-                    .process_domain(
-                        &vwalk,
-                        Rc::new(FiniteDomain::from(
-                            wmin.checked_div(umax).unwrap_or(vmin)
-                                ..=wmax.checked_div(umin).unwrap_or(vmax),
-                        )),
-                    )?)
+                    .process_domain(&wwalk, Rc::new(FiniteDomain::from(pmin..=pmax)))?
+                    .process_domain(&uwalk, Rc::new(FiniteDomain::from(ulo..=uhi)))?
+                    .process_domain(&vwalk, Rc::new(FiniteDomain::from(vlo..=vhi)))?)
             }
             // If all operators do not yet have domains, then keep the constraint until it can
             // be used to constrain some domains.
